@@ -92,8 +92,10 @@ def _check_z3(args):
         model = None
         reason = None
 
+        zctx = z3.Context()  # fresh context per query: results do not depend on what this worker solved before
+
         def run(opts, to):
-            s = z3.Solver()
+            s = z3.Solver(ctx=zctx)
             s.set("timeout", to)
             s.set("random_seed", seed)
             for k, v in opts.items():
@@ -110,32 +112,35 @@ def _check_z3(args):
             # Quantified hypotheses: a small portfolio.  'unsat' from any configuration is a proof.  When none proves the
             # goal and E-matching saturates without a refutation (z3: unknown / "incomplete quantifiers"), the proof has
             # failed and z3's candidate model is the counter-model (as in Boogie/Dafny): reported as sat, flagged.
-            short = max(2000, min(6000, timeout_ms // 3))
+            # stage 1: E-matching only (no MBQI), full budget.  stage 2: default configuration, full budget.
+            # stage 3 (only to classify a failed proof): auto_config off + no MBQI answers "incomplete quantifiers" at once
+            # when instantiation saturates.  A candidate counter-model ("sat") is reported only when some stage reports
+            # saturation (never on mere timeouts) and no stage proves the goal.
             res = "unknown"
-            s, r = run({"smt.mbqi": False}, short)
+            incomplete = False
+            s, r = run({"smt.mbqi": False}, timeout_ms)
             if r == z3.unsat:
                 res = "unsat"
             elif r == z3.sat:
                 res = "sat"
             else:
-                s2, r2 = run({}, short)
+                incomplete = "incomplete" in s.reason_unknown()
+                s2, r2 = run({}, timeout_ms)
                 if r2 == z3.unsat:
                     res = "unsat"
                 elif r2 == z3.sat:
                     res, s = "sat", s2
                 else:
-                    s3, r3 = run({"auto_config": False, "smt.mbqi": False}, short)
+                    s3, r3 = run({"auto_config": False, "smt.mbqi": False}, max(3000, timeout_ms // 4))
                     if r3 == z3.unsat:
                         res = "unsat"
-                    elif r3 == z3.sat or (r3 == z3.unknown and "incomplete" in s3.reason_unknown()):
-                        res, s = "sat", s3
+                    elif r3 == z3.sat or (r3 == z3.unknown and "incomplete" in s3.reason_unknown()) or incomplete:
+                        res = "sat"
+                        if not incomplete or r3 != z3.unknown or "incomplete" in s3.reason_unknown():
+                            s = s3 if r3 != z3.unsat else s
                         reason = "candidate counter-model (quantifier instantiation saturated without refutation)"
                     else:
-                        s4, r4 = run({}, timeout_ms)
-                        res = str(r4)
-                        s = s4
-                        if r4 == z3.unknown:
-                            reason = s4.reason_unknown()
+                        reason = s2.reason_unknown()
         if res == "sat" and want_model:
             try:
                 m = s.model()
